@@ -199,7 +199,7 @@ def configs(tier, seed):
     ]
     if tier == "quick":
         k = seed % len(costs)
-        plan = [("T1c", False, costs[0], {}, 2), ("T1c", True, costs[(k + 1) % 5], {}, 2), ("T1c", False, costs[(k + 2) % 5], {"a": 2}, 2), ("T2", False, costs[0], {}, 2), ("T2", True, costs[(k + 1) % 5], {}, 2)]
+        plan = [("T1c", False, costs[0], {}, 2), ("T1c", False, costs[0], {}, 2, "exact", "idle"), ("T1c", True, costs[(k + 1) % 5], {}, 2), ("T1c", False, costs[(k + 2) % 5], {"a": 2}, 2), ("T2", False, costs[0], {}, 2), ("T2", True, costs[(k + 1) % 5], {}, 2)]
     else:
         plan = []
         for ci, cst in enumerate(costs):
@@ -208,10 +208,16 @@ def configs(tier, seed):
                 plan.append(("T2", integer, cst, {}, 2))
         plan.append(("T1c", True, costs[1], {}, 2, "decimal"))
         plan.append(("T1c", False, costs[2], {}, 2, "decimal"))
+        plan.append(("T1c", False, costs[0], {}, 3, "exact", "idle"))
+        plan.append(("T1c", True, costs[1], {}, 2, "exact", "idle"))
     for p in plan:
         shape, integer, cst, mult, depth = p[:5]
         al = p[5] if len(p) > 5 else "exact"
         spec = dict(cst, shape=shape, integer=integer, mult=mult, capital=1024.0, ndates=4, alpha=al)
+        if len(p) > 6 and p[6] == "idle":
+            # 'a' was held, closed by an earlier Rebalance and has been idle for a date while its price moved
+            spec["ndates"] = 6
+            spec["preops"] = [["algos", [], {"weights": {"a": 0.5}}, "Rebalance"], ["next"], ["algos", [], {"weights": {"b": 0.5}}, "Rebalance"], ["next"]]
         if shape == "T2":
             # the sub-strategies hold positions of their own when the parent starts rebalancing
             spec["prefund"] = [[[], "s1", 256.0], [[], "s2", 128.0]]
